@@ -18,7 +18,7 @@ func programs() []*pbref.Schema {
 	for _, k := range pbref.MapKeyKinds {
 		ps = append(ps, pbref.ProgMaps(k))
 	}
-	ps = append(ps, pbref.ProgNested(), pbref.ProgBigID(2048), pbref.ProgBigID(262144))
+	ps = append(ps, pbref.ProgNested(), pbref.ProgSameName(), pbref.ProgCongruent(), pbref.ProgBigID(2048), pbref.ProgBigID(262144))
 	return ps
 }
 
@@ -667,6 +667,38 @@ func nestedCases(s *pbref.Schema) []dcase {
 	return out
 }
 
+// congruentCases: an unpacked list / a map directly followed on the wire by another length-delimited field whose
+// tag starts with the same byte (controlled order: sequential single-field writes, ascending numbers).
+func congruentCases(s *pbref.Schema) []dcase {
+	root := s.Root
+	f := func(n string) *pbref.Field { return root.ByName(n) }
+	strs := func(fd *pbref.Field, ss ...string) *pbref.Val {
+		l := pbref.ListOf(fd)
+		for _, x := range ss {
+			l.L = append(l.L, pbref.Str(x))
+		}
+		return l
+	}
+	sub := func(a int64) *pbref.Val {
+		return pbref.MsgVal(f("sm").Msg).Set(f("sm").Msg.ByName("a"), pbref.Int(pbref.KInt32, a))
+	}
+	var out []dcase
+	seq := func(trigger string, v *pbref.Val) {
+		out = append(out, dcase{s: s, v: v, trigger: "congruent-seq:" + trigger, seq: true})
+		out = append(out, dcase{s: s, v: v, trigger: "congruent:" + trigger})
+	}
+	rs := strs(f("rs"), "a", "b")
+	m := pbref.MapOf(f("m")).Put(pbref.Str("k"), pbref.Int(pbref.KInt32, 1)).Put(pbref.Str("j"), pbref.Int(pbref.KInt32, 2))
+	rm := pbref.ListOf(f("rm"), sub(1), sub(2))
+	seq("string-list-then-string", pbref.MsgVal(root).Set(f("rs"), rs).Set(f("s"), pbref.Str("hello")))
+	seq("map-then-bytes", pbref.MsgVal(root).Set(f("m"), m).Set(f("b"), pbref.Bytes([]byte{0x0a, 1, 'x', 0x10, 7})))
+	seq("message-list-then-message", pbref.MsgVal(root).Set(f("rm"), rm).Set(f("sm"), sub(3)))
+	seq("string-list-then-string-list", pbref.MsgVal(root).Set(f("rs"), rs).Set(f("rs2"), strs(f("rs2"), "c")))
+	seq("all", pbref.MsgVal(root).Set(f("lo"), pbref.Int(pbref.KInt32, 5)).Set(f("rs"), rs).Set(f("m"), m).Set(f("rm"), rm).Set(f("s"), pbref.Str("t")).
+		Set(f("b"), pbref.Bytes([]byte{1})).Set(f("sm"), sub(4)).Set(f("rs2"), strs(f("rs2"), "d", "e")))
+	return out
+}
+
 func bigidCases(s *pbref.Schema) []dcase {
 	var out []dcase
 	for _, f := range s.Root.Fields {
@@ -693,6 +725,8 @@ func descGroups(tier string) []group {
 			switch {
 			case s.ID == "nested":
 				cs = nestedCases(s)
+			case s.ID == "congruent":
+				cs = congruentCases(s)
 			case strings.HasPrefix(s.ID, "bigid"):
 				cs = bigidCases(s)
 			default:
